@@ -11,7 +11,10 @@ PackOf(c, cell) == LET S == {i \in 1..Len(c.pack) : c.pack[i].f = cell.f /\ c.pa
                    IF S = {} THEN <<-1>> ELSE c.pack[CHOOSE i \in S : TRUE].bytes
 RECURSIVE CatBytes(_, _)
 CatBytes(c, cells) == IF cells = <<>> THEN <<>> ELSE PackOf(c, Head(cells)) \o CatBytes(c, Tail(cells))
-Fails(c) ==
+\* every route by which an object becomes the metadata of a row (add_row / append / row assignment on each table, the top-level and
+\* reference-sequence setters, the node rows of split_edges / decapitate) takes the decision judged below and stores the same bytes
+RouteFails(c) == IF c.routes = <<>> THEN {} ELSE {"insertion_route_disagrees"}
+Fails(c) == RouteFails(c) \cup
   LET ok == Conforms(c.schema, c.value) IN
   IF c.accepted = 0 THEN (IF ok /\ c.expect_reject = 0 THEN {"rejected_conforming_object"} ELSE {})
   ELSE IF ~ok THEN {"accepted_nonconforming_object"}
